@@ -115,12 +115,19 @@ def run(ck, rng, tier):
                 X = np.array([[rng.gauss(0, 1) * (3.6, 2500.0)[j % 2] for j in range(m)] for _ in range(n)])
                 X[:, 0] = np.array([1.0, 1, 2, 3, 3])[rng.sample(range(5), 5)] + float(rng.randint(-3, 3))
                 X[:, m - 1] = np.array([10.0, 12, 11, 10, 12])[rng.sample(range(5), 5)]
+            if hno == 3 and step == 0:
+                # a model whose score table holds more than 500 numbers (60 objects, 10 components)
+                kind, mag, n, m = "pca", 1.0, 60, 12
+                kinds_on[p] = kind
+                X = np.array([[rng.gauss(0, 1) * (1 + 0.3 * j) for j in range(m)] for _ in range(n)])
             if kind == "pca":
                 sc = rng.choice((0, 1)) if 1e-2 <= mag <= 1e3 else 0
                 if unit_ends:
                     sc = 1
                 rk = int(np.linalg.matrix_rank(c02.preprocess(X, sc)))
                 npc = rng.randint(1, max(1, rk))
+                if hno == 3 and step == 0:
+                    npc = 10
                 Xn = X[:2] * 0.5
                 lines.append("write pca %s %s %s %d %d" % (p, vf.fmt_mat(X.tolist(), m), vf.fmt_mat(Xn.tolist(), m), sc, npc))
             elif kind == "pls":
